@@ -402,6 +402,15 @@ func (g *c07Gen) stmts(depth int, vis []string) []*mj.Node {
 			if g.n(0, 2, "yctx") == 0 {
 				n.Ctx = mj.Str(g.id("yctx"))
 			}
+			if len(vis) > 0 && g.n(0, 2, "yieldArgNamedLikeVisible") == 0 {
+				// a value passed under a name the block does not declare, and that a variable at the yield site
+				// has too: it lives in the block's own scope only
+				nm := vis[g.n(0, len(vis)-1, "yieldArgName")]
+				if nm != "lower" {
+					n.Params = []mj.Param{{Name: nm, E: mj.Str(g.id("passed"))}}
+					g.labels["yield-argument-named-like-a-visible-variable"] = true
+				}
+			}
 			n.Content = g.stmts(depth+1, vis)
 			out = append(out, n)
 			out = append(out, g.probes(vis)...)
